@@ -42,6 +42,8 @@ THEOREMS = [
     "Opacus.C04.combine_secure",
     "Opacus.C04.combine_plain",
     "Opacus.C04.secure_mode_variance",
+    "Opacus.C04.hook_noise_on_logical_batch_ends",
+    "Opacus.PeekQueue.run_from",
 ]
 RULE = (
     "request-log cases = (optimizer class, sigma, C or per-layer Cs, secure?, parameter shapes of a generated model) from VERIF_SEED; non-trivial iff sigma ≠ 0 and ≥ 2 parameters; "
@@ -285,17 +287,25 @@ def ddp_perlayer_queue_search(ctx, only=None):
             opt = DistributedPerLayerOptimizer(torch.optim.SGD(model.parameters(), lr=0.0), noise_multiplier=1.0, max_grad_norm=[1.0, 1.0], expected_batch_size=2)
         finally:
             dist.get_rank, dist.get_world_size = saved
-        pushed, draws = 0, []
+        pushed, draws, sched = 0, [], ""
         for i in range(len(signals)):
             while pushed < len(signals) and pushed <= i + ahead:
                 opt.signal_skip_step(do_skip=signals[pushed])
+                sched += "T" if signals[pushed] else "F"
                 pushed += 1
+            sched += "b"
             opt.zero_grad()
             with rig.patched_normal("count") as log:
                 gsm(torch.ones(2, 3)).sum(1).mean().backward()
             draws.append(len(log.calls))
             opt.step()
         want = [0 if s else 2 for s in signals]
+        # the same schedule through the Lean queue model (Model/PeekQueue.lean, theorem hook_noise_on_logical_batch_ends)
+        if hasattr(ctx, "lean_driver"):
+            rep = ctx.lean_driver("C04", ["peek " + sched])[0].strip()
+            model = [2 * int(ch) for ch in rep] if rep != "none" else []
+            if model != draws and draws == want:      # the implementation does what the property says and the model disagrees: model fault
+                ctx.mismatch("peek-queue-model", {"schedule": sched}, draws, rep)
         ctx.case(("ddp-perlayer-queue", seed, ahead), nontrivial=ahead > 0 and any(signals), kind=f"ddp-perlayer-queue:ahead={ahead}")
         if draws != want:
             ctx.property_failure("C04:noise-blocks-per-step:ddp-perlayer:queued-signals",
